@@ -22,21 +22,25 @@ pub struct Config {
     pub gran_ns: i64,
     pub step_ns: i64,
     pub nkeys: usize,
+    /// initial population: 0 = empty directory; 1 = every key present, a day old, distinct ages, all read since insertion
+    /// (so that the first maintenance re-queues several entries at once); 2 = the same, none read
+    pub init: u8,
 }
 
 impl Config {
     fn label(&self) -> String {
         format!(
-            "{}/{}/g{}ms/step{}ms/k{}",
+            "{}/{}/g{}ms/step{}ms/k{}{}",
             ["plain", "sharded", "stack"][self.front as usize],
             ["noatime", "relatime", "strict"][self.policy],
             self.gran_ns / 1_000_000,
             self.step_ns / 1_000_000,
-            self.nkeys
+            self.nkeys,
+            ["", "/all-read", "/all-unread"][self.init as usize]
         )
     }
     fn to_json(&self) -> Value {
-        json!({"front": self.front, "policy": self.policy, "gran_ns": self.gran_ns, "step_ns": self.step_ns, "nkeys": self.nkeys})
+        json!({"front": self.front, "policy": self.policy, "gran_ns": self.gran_ns, "step_ns": self.step_ns, "nkeys": self.nkeys, "init": self.init})
     }
     fn from_json(v: &Value) -> Config {
         Config {
@@ -45,6 +49,7 @@ impl Config {
             gran_ns: v["gran_ns"].as_i64().unwrap(),
             step_ns: v["step_ns"].as_i64().unwrap(),
             nkeys: v["nkeys"].as_u64().unwrap() as usize,
+            init: v["init"].as_u64().unwrap_or(0) as u8,
         }
     }
     fn keys(&self) -> Vec<K> {
@@ -142,8 +147,19 @@ fn open_live(cfg: &Config) -> Live {
         let old = base as i128 - 86_400_000_000_000;
         world::plant(&dirs.reads[0].join("other"), b"bystander", 0o444, old - 120_000_000_000, old);
     }
+    let mut model = Vec::new();
+    if cfg.init != 0 {
+        let day = base as i128 - 86_400_000_000_000;
+        for (i, k) in cfg.keys().iter().enumerate() {
+            let m = day - ((cfg.nkeys - i) as i128) * 60_000_000_000;
+            let val = Val::one(10 + i as u8);
+            let a = if cfg.init == 1 { m + 5_000_000_000 } else { m - 120_000_000_000 };
+            world::plant(&home.join(&k.name), &val.bytes(), 0o444, a, m);
+            model.push(MEntry { name: k.name.clone(), val, marked: cfg.init == 1 });
+        }
+    }
     let cache = ops::build(&scfg, &dirs, None);
-    Live { sc, dirs, scfg, cache, home, model: Vec::new() }
+    Live { sc, dirs, scfg, cache, home, model }
 }
 
 fn floor(t: i128, g: i64) -> i128 {
@@ -506,15 +522,24 @@ pub fn configs(tier: Tier) -> Vec<(Config, usize)> {
             (2, 0, 4), (2, 1, 0), (2, 2, 3), (0, 0, 5), (1, 1, 1), (2, 2, 2),
         ];
         for (f, p, gi) in picks {
-            v.push((Config { front: f, policy: p, gran_ns: g[gi].0, step_ns: g[gi].1, nkeys: 2 }, 4));
+            v.push((Config { front: f, policy: p, gran_ns: g[gi].0, step_ns: g[gi].1, nkeys: 2, init: 0 }, 4));
+        }
+        // from populated directories (three entries, all read / none read since insertion): the first maintenance
+        // re-queues or evicts several entries at once
+        for (f, p, gi, init) in [(0u8, 0usize, 0usize, 1u8), (1, 2, 1, 1), (2, 1, 2, 1), (0, 1, 4, 1), (0, 2, 0, 2), (1, 0, 3, 2)] {
+            v.push((Config { front: f, policy: p, gran_ns: g[gi].0, step_ns: g[gi].1, nkeys: 3, init }, 3));
         }
     } else {
         for f in 0..3u8 {
             for p in 0..3usize {
                 for (gn, st) in &g {
-                    v.push((Config { front: f, policy: p, gran_ns: *gn, step_ns: *st, nkeys: 2 }, 8));
+                    v.push((Config { front: f, policy: p, gran_ns: *gn, step_ns: *st, nkeys: 2, init: 0 }, 8));
                     if f == 0 {
-                        v.push((Config { front: f, policy: p, gran_ns: *gn, step_ns: *st, nkeys: 3 }, 5));
+                        v.push((Config { front: f, policy: p, gran_ns: *gn, step_ns: *st, nkeys: 3, init: 0 }, 5));
+                    }
+                    v.push((Config { front: f, policy: p, gran_ns: *gn, step_ns: *st, nkeys: 3, init: 1 }, 4));
+                    if f == 0 {
+                        v.push((Config { front: f, policy: p, gran_ns: *gn, step_ns: *st, nkeys: 3, init: 2 }, 4));
                     }
                 }
             }
@@ -582,7 +607,7 @@ fn fault_section(shard: Shard, rep: &mut Report) {
     let mut no = 0u64;
     for front in 0..3u8 {
         for policy in 0..3usize {
-            let cfg = Config { front, policy, gran_ns: 1, step_ns: ms, nkeys: 2 };
+            let cfg = Config { front, policy, gran_ns: 1, step_ns: ms, nkeys: 2, init: 0 };
             for marker in [Sym::Touch(0), Sym::Put(0), Sym::GetRead(0), Sym::GetDrop(0)] {
                 // fault-free run to learn the marker's calls
                 let mut scratch = Report::new("scratch");
@@ -651,8 +676,10 @@ pub fn run(tier: Tier, shard: Shard, rep: &mut Report) {
         step the directory is compared with an abstract queue (a hit/touch/put-on-existing sets the mark and changes neither mtime nor \
         content nor any other entry; a set or inserting put carries the newest mtime and no mark; mtime order = queue order), and after \
         every marking step the real prune is run on a clone of the directory with capacity n-1: the entry must survive when an unread \
-        entry exists, and be re-queued when it was the oldest. Quick: a pairwise-covering dozen of the 54 configurations to depth 4; \
-        thorough: all of them to depth 8 or fixpoint. Plus: touch / put-on-existing / get racing with a set of the same key (all schedules with \
+        entry exists, and be re-queued when it was the oldest. Quick: a pairwise-covering dozen of the 54 configurations to depth 4 from \
+        the empty directory, plus six configurations to depth 3 from a directory already holding three day-old entries (all read since \
+        insertion, so that one maintenance re-queues several entries, or none read); thorough: all of them to depth 8 or fixpoint, and \
+        all populated starts to depth 4. Plus: touch / put-on-existing / get racing with a set of the same key (all schedules with \
         <= 2 preemptions): the entry that ends up holding the set's value never carries the replaced entry's modification time. And: every call of a marking operation failing once in turn (3 front-ends x 3 atime policies): an operation \
         that still reports success has set the mark and left the mtime alone. \
         Non-trivial = states with >= 2 entries and a read mark."
